@@ -99,7 +99,7 @@ func TestDepRulesMatrix(t *testing.T) {
 
 	for _, tt := range tests {
 		t.Run(tt.name, func(t *testing.T) {
-			// Simulate the validation order used in writeLinkEvent
+			// Simulate the validation order used in writeLinkEvents
 			from, to := "A", "B"
 			if tt.sameID {
 				to = "A"
